@@ -291,6 +291,19 @@ func (e *c20Env) deliver(n int, forkAt int) error {
 		if err != nil {
 			return fmt.Errorf("harness: extend: %v", err)
 		}
+		// some transactions reach the wallet unconfirmed first, some of them more than once (every
+		// peer relays them): the follower's in-memory pending set is then part of every scenario
+		for j, tx := range b.Msg.Transactions {
+			if j == 0 || !e.rs.Chance(50) {
+				continue
+			}
+			e.w.DeliverTx(tx)
+			e.t.Count("unconfirmed_deliveries", 1)
+			if e.rs.Chance(50) {
+				e.w.DeliverTx(tx)
+				e.t.Count("unconfirmed_redeliveries", 1)
+			}
+		}
 		e.w.Deliver(b)
 	}
 	return nil
